@@ -118,7 +118,9 @@ def run(shard, ctx):
             for nm in ("F#", "Bbb", "G"):
                 check_string(ctx, nm + hs[1:] if hs[0] in "Cc" else nm + hs)
         # very long names (a thousand and more accidentals, pure and mixed): still names, with the same clauses
-        for nm in ("C" + "#" * 1200, "B" + "b" * 1500, "E" + "#b" * 800, "G" + "b#" * 1100 + "b", "A" + "#" * 5000):
+        for nm in ("C" + "#" * 1200, "B" + "b" * 1500, "E" + "#b" * 800, "G" + "b#" * 1100 + "b", "A" + "#" * 5000,
+                   # long blocks that cancel each other from the inside out (deeper than the interpreter's recursion limit here)
+                   "C" + "#" * 3300 + "b" * 3300 + "###", "F" + "b" * 3100 + "#" * 3100, "D" + "#b" * 3200 + "b"):
             check_name(ctx, nm)
         # long names that agree in letter, first accidental and length and differ in what they add up to
         for L_ in "GC":
